@@ -207,3 +207,507 @@ Proof.
     rewrite cnt_refs_list_cons, cnt_app. lia.
 Qed.
 End Prims.
+
+(* ------------------------------------------------------------------ *)
+(* tactics                                                             *)
+(* ------------------------------------------------------------------ *)
+Ltac pcbn :=
+  cbn [p_stack p_locals p_frames p_pers p_mailbox p_result p_sel p_await
+       set_stack set_locals set_frames set_mailbox set_result set_sel set_await
+       ss_frame ss_instr ss_sources ss_cursors ss_start ss_recv
+       set_cursor set_recv live_cursor].
+
+Ltac cnts :=
+  let i := fresh "i" in
+  intro i; rewrite ?cnt_proc_refs; pcbn; cbn [sel_refs]; pcbn;
+  rewrite ?cnt_app, ?cnt_refs_list_cons, ?cnt_refs_list_app, ?cnt_refs_list_nil, ?cnt_nil; lia.
+
+Ltac t_release X :=
+  eapply G_m_release with (x := X); [eassumption|reflexivity|cnts|intros ? ?]; cbv beta.
+Ltac t_release_vals X :=
+  eapply G_release_vals with (x := X); [eassumption|reflexivity|cnts|intros ? ?]; cbv beta.
+Ltac t_retain X :=
+  eapply G_m_retain with (x := X); [eassumption|reflexivity|cnts|intros ? ?]; cbv beta.
+Ltac t_done := eapply StX_move; [eassumption|reflexivity|cnts].
+
+(* ------------------------------------------------------------------ *)
+(* 1. complete_select (2611)                                           *)
+(* ------------------------------------------------------------------ *)
+Lemma complete_select_G result o h0 p0 h p :
+  StX o h0 p0 [] h p -> G o h0 p0 (complete_select result h p).
+Proof.
+  intro S. destruct p as [st lo fr pe mb rs se aw].
+  unfold complete_select. apply G_mget; cbv beta. apply G_mput; cbv beta. pcbn.
+  destruct se as [[sf si srcs cur start recv]|]; pcbn.
+  - apply G_assoc. destruct recv as [[n m]|].
+    + t_release_vals (refs_of m). t_release (@nil nat).
+      t_retain (refs_of result). apply G_raw_push. apply G_bump_pc. apply G_end_val. t_done.
+    + t_release_vals (@nil nat). apply G_mret.
+      t_retain (refs_of result). apply G_raw_push. apply G_bump_pc. apply G_end_val. t_done.
+  - apply G_mret.
+    t_retain (refs_of result). apply G_raw_push. apply G_bump_pc. apply G_end_val. t_done.
+Qed.
+
+Theorem complete_select_good result o h p :
+  Inv o h p -> Good o h p (complete_select result h p).
+Proof. intro HI. apply Good_G. apply complete_select_G. apply StX_init. exact HI. Qed.
+
+(* ------------------------------------------------------------------ *)
+(* 2. select_continuation (2130)                                       *)
+(* ------------------------------------------------------------------ *)
+Lemma select_continuation_G o h0 p0 h p :
+  StX o h0 p0 [] h p -> G o h0 p0 (select_continuation h p).
+Proof.
+  intro S. destruct p as [st lo fr pe mb rs se aw].
+  unfold select_continuation. apply G_mget; cbv beta. pcbn.
+  destruct se as [[sf si srcs cur start recv]|]; pcbn; [|apply G_end_val; exact S].
+  destruct (negb _); [apply G_end_err; exact S|].
+  destruct recv as [[n m]|]; [|apply G_end_val; exact S].
+  apply G_raw_pop_req. pcbn. destruct st as [|v st]; [exact S|].
+  t_release (@nil nat). apply G_end_val. assumption.
+Qed.
+
+Theorem select_continuation_good o h p :
+  Inv o h p -> Good o h p (select_continuation h p).
+Proof. intro HI. apply Good_G. apply select_continuation_G. apply StX_init. exact HI. Qed.
+
+(* ------------------------------------------------------------------ *)
+(* 4. take_message                                                     *)
+(* ------------------------------------------------------------------ *)
+Lemma cnt_remove_nth i : forall (l : list value) idx m, nth_error l idx = Some m ->
+  cnt i (refs_list l) = cnt i (refs_of m) + cnt i (refs_list (remove_nth idx l)).
+Proof.
+  induction l as [|a t IH]; intros idx m E; destruct idx as [|idx]; cbn [nth_error] in E;
+    try discriminate.
+  - inversion E; subst. cbn [remove_nth]. apply cnt_refs_list_cons.
+  - cbn [remove_nth]. rewrite !cnt_refs_list_cons, (IH _ _ E). lia.
+Qed.
+
+Lemma take_message_G idx o h0 p0 h p :
+  StX o h0 p0 [] h p -> G o h0 p0 (take_message idx h p).
+Proof.
+  intro S. destruct p as [st lo fr pe mb rs se aw].
+  unfold take_message. apply G_mget; cbv beta. pcbn.
+  destruct (nth_error mb idx) as [m|] eqn:E; [|apply G_end_val; exact S].
+  apply G_mput; cbv beta. apply G_ret_end.
+  eapply G_m_release with (x := @nil nat); [eassumption|reflexivity| |intros ? ?; cbv beta].
+  - intro i. rewrite !cnt_proc_refs. pcbn. rewrite (cnt_remove_nth i _ _ _ E), cnt_nil. lia.
+  - apply G_end_val. assumption.
+Qed.
+
+Theorem take_message_good idx o h p :
+  Inv o h p -> Good o h p (take_message idx h p).
+Proof. intro HI. apply Good_G. apply take_message_G. apply StX_init. exact HI. Qed.
+
+(* ------------------------------------------------------------------ *)
+(* 3. initialize_select (2166)                                         *)
+(* ------------------------------------------------------------------ *)
+Lemma assoc_set_None_refs i t : forall a a' old, assoc_set t (@None value) a = (a', old) ->
+  cnt i (await_refs a) =
+  cnt i (await_refs a') + cnt i (match old with Some (Some v) => refs_of v | _ => [] end).
+Proof.
+  induction a as [|[j b] r IH]; intros a' old E; cbn [assoc_set] in E.
+  - inversion E; subst. unfold await_refs. cbn [flat_map snd app]. rewrite cnt_nil. lia.
+  - destruct (t =? j).
+    + inversion E; subst. unfold await_refs. cbn [flat_map snd]. rewrite !cnt_app.
+      destruct b as [v|]; cbn [app]; rewrite ?cnt_nil; lia.
+    + destruct (assoc_set t None r) as [t' o'] eqn:E'. inversion E; subst.
+      specialize (IH _ _ eq_refl). unfold await_refs in *. cbn [flat_map snd].
+      rewrite !cnt_app. lia.
+Qed.
+
+Lemma await_register_refs i : forall targets a acc a' stale,
+  await_register targets a acc = (a', stale) ->
+  cnt i (await_refs a) + cnt i (refs_list acc) = cnt i (await_refs a') + cnt i (refs_list stale).
+Proof.
+  induction targets as [|t r IH]; intros a acc a' stale E; cbn [await_register] in E.
+  - inversion E; subst. reflexivity.
+  - destruct (assoc_set t None a) as [a1 old] eqn:E1.
+    apply IH in E. pose proof (assoc_set_None_refs i _ _ _ _ E1) as H1.
+    destruct old as [[v|]|]; rewrite ?cnt_refs_list_app, ?cnt_refs_list_cons, ?cnt_refs_list_nil,
+      ?cnt_nil in *; lia.
+Qed.
+
+(* the select sources hold exactly the references of the popped value *)
+Lemma refs_sources v :
+  refs_list (match v with VTuple _ els => els | _ => [v] end) = refs_of v.
+Proof. destruct v; unfold refs_list; cbn [flat_map refs_of]; rewrite ?app_nil_r; reflexivity. Qed.
+
+Lemma initialize_select_G pid now o h0 p0 h p :
+  p_sel p = None ->
+  StX o h0 p0 [] h p -> G o h0 p0 (initialize_select true pid now h p).
+Proof.
+  intros SE S. destruct p as [st lo fr pe mb rs se aw]. cbn [p_sel] in SE. subst se.
+  unfold initialize_select. apply G_raw_pop_req. pcbn.
+  destruct st as [|v st]; [exact S|]. cbv zeta. apply G_mget; cbv beta. pcbn.
+  pose proof (refs_sources v) as RS.
+  set (srcs := match v with VTuple _ els => els | _ => [v] end) in *.
+  destruct (flat_map _ srcs) as [|t ts].
+  - apply G_mput; cbv beta. apply G_end_val.
+    eapply StX_move; [eassumption|reflexivity|].
+    intro i. rewrite !cnt_proc_refs. pcbn. cbn [sel_refs]. pcbn.
+    rewrite ?cnt_app, ?cnt_refs_list_cons, RS, ?cnt_nil. lia.
+  - destruct (await_register (t :: ts) aw []) as [a' stale] eqn:EA.
+    apply G_mput; cbv beta. cbv iota.
+    eapply G_release_vals with (x := @nil nat); [eassumption|reflexivity| |intros ? ?; cbv beta].
+    + intro i. pose proof (await_register_refs i _ _ _ _ _ EA) as HA.
+      rewrite !cnt_proc_refs. pcbn. cbn [sel_refs]. pcbn.
+      rewrite ?cnt_app, ?cnt_refs_list_cons, RS, ?cnt_refs_list_nil, ?cnt_nil in *. lia.
+    + apply G_end_val. assumption.
+Qed.
+
+(* NOTE the hypothesis p_sel p = None: initialize_select overwrites select_state, and
+   handle_select reaches it only when there is none (see initialize_select_over_refuted). *)
+Theorem initialize_select_good pid now o h p :
+  p_sel p = None ->
+  Inv o h p -> Good o h p (initialize_select true pid now h p).
+Proof. intros SE HI. apply Good_G. apply initialize_select_G; [exact SE|]. apply StX_init. exact HI. Qed.
+
+(* ------------------------------------------------------------------ *)
+(* witnesses: one live slot of count 1                                 *)
+(* ------------------------------------------------------------------ *)
+Definition wit_heap : heap := mkHeap [Owned []] [1] [] [] [false] [].
+Definition wit_frame : frame := Build_frame 0 0 0 0.
+
+Lemma wit_heap_WF : WFh wit_heap.
+Proof.
+  unfold WFh, wit_heap; cbn [cells rcs free pending freed length].
+  split; [reflexivity|]. split; [reflexivity|]. split; [constructor|].
+  split; [|split].
+  - intro i. split; [intros []|]. intros [Hi Hf]. destruct i as [|i]; [discriminate Hf|lia].
+  - intros i Hf. unfold freed_at in Hf. cbn [freed] in Hf.
+    destruct i as [|[|i]]; discriminate Hf.
+  - intros i [].
+Qed.
+
+Lemma wit_Inv p : proc_refs p = [0] -> Inv [] wit_heap p.
+Proof.
+  intro E. split; [exact wit_heap_WF|]. intro i. rewrite E.
+  destruct i as [|[|i]]; reflexivity.
+Qed.
+
+Lemma wit_not_Inv p : proc_refs p = [] -> ~ Inv [] wit_heap p.
+Proof. intros E [_ H]. specialize (H 0). rewrite E in H. discriminate H. Qed.
+
+(* finding F9, first site: `awaiting.insert(target, None)` drops a counted result *)
+Example initialize_select_refuted :
+  exists o h p pid now, Inv o h p /\ p_sel p = None /\
+    match initialize_select false pid now h p with
+    | MVal _ h' p' => ~ Inv o h' p'
+    | _ => False
+    end.
+Proof.
+  exists [], wit_heap,
+    (mkProc [VProc 7 0] [] [wit_frame] false [] None None [(7, Some (VBin 0))]), 0, 0%Z.
+  split; [apply wit_Inv; reflexivity|]. split; [reflexivity|].
+  apply wit_not_Inv. reflexivity.
+Qed.
+
+(* the model's initialize_select overwrites an existing select state without releasing it, with
+   or without the fix: the hypothesis p_sel p = None of initialize_select_good is needed
+   (handle_select guarantees it) *)
+Example initialize_select_over_refuted :
+  exists o h p pid now, Inv o h p /\
+    match initialize_select true pid now h p with
+    | MVal _ h' p' => ~ Inv o h' p'
+    | _ => False
+    end.
+Proof.
+  exists [], wit_heap,
+    (mkProc [VInt 0] [] [wit_frame] false [] None (Some (mkSel 0 0 [VBin 0] [] None None)) []),
+    0, 0%Z.
+  split; [apply wit_Inv; reflexivity|].
+  apply wit_not_Inv. reflexivity.
+Qed.
+
+(* non-vacuity of initialize_select_good: the same process as in the refutation, fixed code:
+   the displaced result is released and the invariant holds afterwards *)
+Example initialize_select_fixed_ex :
+  match initialize_select true 0 0%Z wit_heap
+          (mkProc [VProc 7 0] [] [wit_frame] false [] None None [(7, Some (VBin 0))]) with
+  | MVal (Some (AAwait [7] 0)) h' p' => rc_at h' 0 = 0 /\ p_await p' = [(7, None)]
+  | _ => False
+  end.
+Proof. vm_compute. split; reflexivity. Qed.
+
+Section Sel.
+Variable P : hprogram.
+(* proved in another file (HeapHandlers.v) *)
+Hypothesis handle_call_good : forall x o h p, Inv o h p -> Good o h p (handle_call P x h p).
+
+(* ------------------------------------------------------------------ *)
+(* 5. call_receive_function (2549)                                     *)
+(* ------------------------------------------------------------------ *)
+Lemma call_receive_function_G ridx midx msg src x o h0 p0 h p :
+  p_sel p <> None ->
+  StX o h0 p0 [] h p -> G o h0 p0 (call_receive_function true P ridx midx msg src x h p).
+Proof.
+  intros SE S. destruct p as [st lo fr pe mb rs se aw]. cbn [p_sel] in SE.
+  destruct se as [[sf si srcs cur start recv]|]; [clear SE|congruence].
+  unfold call_receive_function.
+  t_retain (refs_of msg). apply G_mget; cbv beta. pcbn.
+  destruct (length cur <=? ridx); [apply G_panic_bind|].
+  apply G_assoc. apply G_mput; cbv beta.
+  destruct recv as [[n old]|].
+  - t_release (@nil nat).
+    eapply G_push_value with (x := @nil nat); [eassumption|intros ? ?].
+    eapply G_push_value with (x := @nil nat); [eassumption|intros ? ?].
+    eapply G_call; [eassumption|intro; apply handle_call_good; assumption|].
+    intros a h9 p9 S9. apply G_end_val. exact S9.
+  - apply G_mret.
+    eapply G_push_value with (x := @nil nat); [t_done|intros ? ?].
+    eapply G_push_value with (x := @nil nat); [eassumption|intros ? ?].
+    eapply G_call; [eassumption|intro; apply handle_call_good; assumption|].
+    intros a h9 p9 S9. apply G_end_val. exact S9.
+Qed.
+
+(* NOTE the hypothesis p_sel p <> None: without a select state the model retains msg and stores
+   it nowhere (`| None => mret tt`); executor.rs reaches this function only from
+   scan_mailbox_for_message, with a select state. *)
+Theorem call_receive_function_good ridx midx msg src x o h p :
+  p_sel p <> None ->
+  Inv o h p -> Good o h p (call_receive_function true P ridx midx msg src x h p).
+Proof.
+  intros SE HI. apply Good_G. apply call_receive_function_G; [exact SE|]. apply StX_init. exact HI.
+Qed.
+
+(* finding F9, second site: `state.receiving = Some(..)` overwrites a held message *)
+Example call_receive_refuted :
+  exists o h p ridx midx msg src x, Inv o h p /\ p_sel p <> None /\
+    match call_receive_function false P ridx midx msg src x h p with
+    | MVal _ h' p' | MErr _ h' p' => ~ Inv o h' p'
+    | MPanic _ => False
+    end.
+Proof.
+  exists [], wit_heap,
+    (mkProc [] [] [wit_frame] false [] None (Some (mkSel 0 0 [] [0] None (Some (1, VBin 0)))) []),
+    0, 0, (VInt 5), (VInt 0), (Build_hext None false [] 0%Z).
+  split; [apply wit_Inv; reflexivity|]. split; [discriminate|].
+  apply wit_not_Inv. reflexivity.
+Qed.
+
+(* ------------------------------------------------------------------ *)
+(* 6. the receive path and the source loop                             *)
+(* ------------------------------------------------------------------ *)
+Lemma Good_mret {A} (a : A) o h p : Inv o h p -> Good o h p (mret a h p).
+Proof. intro HI. split; [exact HI|]. split; [apply stable_refl|reflexivity]. Qed.
+
+(* like G_call, with a fact R about the value and the process reached passed to the continuation *)
+Lemma G_call2 {A B} o h0 p0 (R : A -> proc -> Prop) (m : M A) (k : A -> M B) h p :
+  StX o h0 p0 [] h p ->
+  (Inv o h p -> Good o h p (m h p)) ->
+  match m h p with MVal a _ p' => R a p' | _ => True end ->
+  (forall a h' p', StX o h0 p0 [] h' p' -> R a p' -> G o h0 p0 (k a h' p')) ->
+  G o h0 p0 (mbind m k h p).
+Proof.
+  intros S HG HR HK. pose proof (HG (StX_Inv _ _ _ _ _ S)) as Hm.
+  destruct S as [_ [HS HRs]]. unfold mbind.
+  destruct (m h p) as [a h' p'|e h' p'|n]; cbn [Good G] in *; auto.
+  - apply HK; [|exact HR]. destruct Hm as (HI & HS' & HR'). split; [apply InvX_nil; exact HI|].
+    split; [eapply stable_trans; eauto|congruence].
+  - destruct Hm as (HI & HS' & HR'). split; [apply InvX_nil; exact HI|].
+    split; [eapply stable_trans; eauto|congruence].
+Qed.
+
+(* the select state stays in place along the receive path *)
+Lemma take_message_sel idx h p :
+  match take_message idx h p with MVal _ _ p' => p_sel p' = p_sel p | _ => True end.
+Proof.
+  unfold take_message. cbv [mbind mget mret mput m_release mheap_].
+  destruct (nth_error (p_mailbox p) idx) as [m|]; [|reflexivity].
+  destruct (release h m); try exact I. reflexivity.
+Qed.
+
+Lemma receive_result_sel ridx mv rr h p : p_sel p <> None ->
+  match receive_result ridx mv rr h p with MVal _ _ p' => p_sel p' <> None | _ => True end.
+Proof.
+  intro SE. unfold receive_result. destruct rr as [verdict|]; [|exact I].
+  destruct (negb (is_nil verdict)).
+  - cbv [mbind mget mret]. pose proof (take_message_sel (live_cursor p ridx) h p) as T.
+    destruct (take_message (live_cursor p ridx) h p); try exact I. rewrite T. exact SE.
+  - destruct p as [st lo fr pe mb rs se aw]. cbn [p_sel] in SE.
+    destruct se as [[sf si srcs cur start recv]|]; [clear SE|congruence].
+    cbv [mbind mget mret mput mpanic m_release mheap_]. pcbn.
+    destruct (length cur <=? ridx); [exact I|].
+    destruct recv as [[n m]|]; [destruct (release h m); try exact I|]; pcbn; discriminate.
+Qed.
+
+Lemma receive_result_G ridx mv rr o h0 p0 h p :
+  StX o h0 p0 [] h p -> G o h0 p0 (receive_result ridx mv rr h p).
+Proof.
+  intro S. unfold receive_result. destruct rr as [verdict|]; [|apply G_end_err; exact S].
+  destruct (negb (is_nil verdict)).
+  - apply G_mget; cbv beta.
+    eapply G_call; [exact S|intro; apply take_message_good; assumption|].
+    intros a h9 p9 S9. apply G_end_val. exact S9.
+  - apply G_mget; cbv beta. destruct p as [st lo fr pe mb rs se aw]. pcbn.
+    destruct se as [[sf si srcs cur start recv]|]; pcbn.
+    + destruct (length cur <=? ridx); [apply G_panic_bind|].
+      apply G_assoc. apply G_mput; cbv beta.
+      destruct recv as [[n m]|].
+      * t_release (@nil nat). apply G_end_val. assumption.
+      * apply G_mret. apply G_end_val. t_done.
+    + apply G_mret. apply G_end_val. exact S.
+Qed.
+
+Theorem receive_result_good ridx mv rr o h p :
+  Inv o h p -> Good o h p (receive_result ridx mv rr h p).
+Proof. intro HI. apply Good_G. apply receive_result_G. apply StX_init. exact HI. Qed.
+
+Lemma scan_mailbox_sel ridx src sc x msgs : forall idx cursor h p, p_sel p <> None ->
+  match scan_mailbox true P ridx src sc x msgs idx cursor h p with
+  | MVal SContinue _ p' => p_sel p' <> None
+  | _ => True
+  end.
+Proof.
+  induction msgs as [|m rest IH]; intros idx cursor h p SE; cbn [scan_mailbox].
+  - destruct p as [st lo fr pe mb rs se aw]. cbn [p_sel] in SE.
+    destruct se as [[sf si srcs cur start recv]|]; [clear SE|congruence].
+    cbv [mbind mget mret mput]. pcbn.
+    destruct (sc <? cursor); [destruct (ridx <? length cur)|]; pcbn; discriminate.
+  - destruct (msg_compatible P m src); [destruct (is_type_only P src)|apply IH; exact SE].
+    + cbv [mbind mret]. destruct (take_message idx h p); exact I.
+    + cbv [mbind mret]. destruct (call_receive_function true P ridx idx m src x h p); exact I.
+Qed.
+
+Lemma scan_mailbox_G ridx src sc x msgs : forall idx cursor o h0 p0 h p,
+  p_sel p <> None ->
+  StX o h0 p0 [] h p -> G o h0 p0 (scan_mailbox true P ridx src sc x msgs idx cursor h p).
+Proof.
+  induction msgs as [|m rest IH]; intros idx cursor o h0 p0 h p SE S; cbn [scan_mailbox].
+  - apply G_mget; cbv beta. destruct p as [st lo fr pe mb rs se aw].
+    destruct se as [[sf si srcs cur start recv]|]; pcbn;
+      [|destruct (sc <? cursor); apply G_mret; apply G_end_val; exact S].
+    destruct (sc <? cursor); [|apply G_mret; apply G_end_val; exact S].
+    destruct (ridx <? length cur); [|apply G_mret; apply G_end_val; exact S].
+    apply G_mput; cbv beta. apply G_end_val. t_done.
+  - destruct (msg_compatible P m src); [destruct (is_type_only P src)|apply IH; assumption].
+    + eapply G_call; [exact S|intro; apply take_message_good; assumption|].
+      intros a h9 p9 S9. apply G_end_val. exact S9.
+    + eapply G_call; [exact S|intro; apply call_receive_function_good; assumption|].
+      intros a h9 p9 S9. apply G_end_val. exact S9.
+Qed.
+
+(* the hypothesis p_sel p <> None is inherited from call_receive_function_good *)
+Theorem scan_mailbox_good ridx src sc x msgs idx cursor o h p :
+  p_sel p <> None ->
+  Inv o h p -> Good o h p (scan_mailbox true P ridx src sc x msgs idx cursor h p).
+Proof.
+  intros SE HI. apply Good_G. apply scan_mailbox_G; [exact SE|]. apply StX_init. exact HI.
+Qed.
+
+Lemma select_receive_sel src_idx src snap rr x h p : p_sel p <> None ->
+  match select_receive true P src_idx src snap rr x h p with
+  | MVal SContinue _ p' => p_sel p' <> None
+  | _ => True
+  end.
+Proof.
+  intro SE. unfold select_receive. cbv zeta.
+  set (ridx := count_recv (firstn src_idx (ss_sources snap))).
+  set (m1 := match ss_recv snap with
+             | Some (idx, msgval) => if idx =? ridx then receive_result ridx msgval rr else mret None
+             | None => mret None
+             end).
+  assert (H1 : match m1 h p with MVal _ _ p' => p_sel p' <> None | _ => True end).
+  { subst m1. destruct (ss_recv snap) as [[idx mv]|]; [destruct (idx =? ridx)|];
+      [apply receive_result_sel; exact SE|exact SE|exact SE]. }
+  cbv [mbind mget mret]. destruct (m1 h p) as [[v|] h1 p1|e h1 p1|n]; try exact I.
+  apply scan_mailbox_sel. exact H1.
+Qed.
+
+Lemma select_receive_G src_idx src snap rr x o h0 p0 h p :
+  p_sel p <> None ->
+  StX o h0 p0 [] h p -> G o h0 p0 (select_receive true P src_idx src snap rr x h p).
+Proof.
+  intros SE S. unfold select_receive. cbv zeta.
+  set (ridx := count_recv (firstn src_idx (ss_sources snap))).
+  eapply G_call2 with (R := fun _ p' => p_sel p' <> None); [exact S| | |].
+  - intro HI. destruct (ss_recv snap) as [[idx mv]|]; [destruct (idx =? ridx)|];
+      [apply receive_result_good; exact HI|apply Good_mret; exact HI|apply Good_mret; exact HI].
+  - destruct (ss_recv snap) as [[idx mv]|]; [destruct (idx =? ridx)|];
+      [apply receive_result_sel; exact SE|exact SE|exact SE].
+  - intros [v|] h9 p9 S9 SE9; [apply G_end_val; exact S9|].
+    apply G_mget; cbv beta. apply scan_mailbox_G; assumption.
+Qed.
+
+Theorem select_receive_good src_idx src snap rr x o h p :
+  p_sel p <> None ->
+  Inv o h p -> Good o h p (select_receive true P src_idx src snap rr x h p).
+Proof.
+  intros SE HI. apply Good_G. apply select_receive_G; [exact SE|]. apply StX_init. exact HI.
+Qed.
+
+Lemma select_sources_G snap rr start now x srcs : forall src_idx o h0 p0 h p,
+  p_sel p <> None ->
+  StX o h0 p0 [] h p ->
+  G o h0 p0 (select_sources true P snap rr start now x srcs src_idx h p).
+Proof.
+  induction srcs as [|s rest IH]; intros src_idx o h0 p0 h p SE S; cbn [select_sources].
+  - apply G_end_val. exact S.
+  - destruct s as [timeout|b|r|t fs|f caps|b|t f|rid ty]; try (apply G_end_err; exact S).
+    + cbv zeta.
+      destruct (Z.max timeout 0 <=? Z.max 0 (now - start))%Z;
+        [apply complete_select_G; exact S|apply IH; assumption].
+    + eapply G_call2 with (R := fun a p' => match a with SContinue => p_sel p' <> None | _ => True end);
+        [exact S|intro; apply select_receive_good; assumption|apply select_receive_sel; exact SE|].
+      intros [v| |] h9 p9 S9 SE9;
+        [apply complete_select_G; exact S9|apply G_end_val; exact S9|apply IH; assumption].
+    + eapply G_call2 with (R := fun a p' => match a with SContinue => p_sel p' <> None | _ => True end);
+        [exact S|intro; apply select_receive_good; assumption|apply select_receive_sel; exact SE|].
+      intros [v| |] h9 p9 S9 SE9;
+        [apply complete_select_G; exact S9|apply G_end_val; exact S9|apply IH; assumption].
+    + apply G_mget; cbv beta.
+      destruct (assoc_get t (p_await p)) as [[v|]|];
+        [apply complete_select_G; exact S|apply IH; assumption|apply IH; assumption].
+Qed.
+
+Theorem select_sources_good snap rr start now x srcs src_idx o h p :
+  p_sel p <> None ->
+  Inv o h p -> Good o h p (select_sources true P snap rr start now x srcs src_idx h p).
+Proof.
+  intros SE HI. apply Good_G. apply select_sources_G; [exact SE|]. apply StX_init. exact HI.
+Qed.
+
+(* handle_select (2582): the repaired select machine keeps the exact-count invariant *)
+Theorem handle_select_good pid x o h p :
+  Inv o h p -> Good o h p (handle_select true P pid x h p).
+Proof.
+  intro HI. apply Good_G. pose proof (StX_init _ _ _ HI) as S.
+  unfold handle_select.
+  eapply G_call; [exact S|intro; apply select_continuation_good; assumption|].
+  intros rr h9 p9 S9. apply G_mget; cbv beta.
+  destruct p9 as [st lo fr pe mb rs se aw]. pcbn.
+  destruct se as [[sf si srcs cur start recv]|].
+  - assert (K : forall m : M (option action),
+               m = (let start0 := match ss_start (mkSel sf si srcs cur start recv) with
+                                  | Some t => t | None => hx_now x end in
+                    let ss' := mkSel sf si srcs cur (Some start0) recv in
+                    mput (set_sel (mkProc st lo fr pe mb rs (Some (mkSel sf si srcs cur start recv)) aw)
+                                  (Some ss')) ;;;
+                    select_sources true P ss' rr start0 (hx_now x) x (ss_sources ss') 0) ->
+               G o h p (m h9 (mkProc st lo fr pe mb rs (Some (mkSel sf si srcs cur start recv)) aw))).
+    { intros m ->. cbv zeta. apply G_mput; cbv beta.
+      apply select_sources_G; [pcbn; discriminate|t_done]. }
+    destruct rr as [v|]; apply K; reflexivity.
+  - destruct rr as [v|]; [apply G_end_err; exact S9|].
+    apply initialize_select_G; [reflexivity|exact S9].
+Qed.
+End Sel.
+
+(* non-vacuity: a select state holding slot 0 completes with an integer; the source is released *)
+Example complete_select_ex :
+  match complete_select (VInt 1) wit_heap
+          (mkProc [] [] [wit_frame] false [] None (Some (mkSel 0 0 [VBin 0] [] None None)) []) with
+  | MVal None h' p' => rc_at h' 0 = 0 /\ p_sel p' = None /\ p_stack p' = [VInt 1] /\ pending h' = [0]
+  | _ => False
+  end.
+Proof. vm_compute. repeat split; reflexivity. Qed.
+
+Print Assumptions complete_select_good.
+Print Assumptions select_continuation_good.
+Print Assumptions initialize_select_good.
+Print Assumptions initialize_select_refuted.
+Print Assumptions take_message_good.
+Print Assumptions call_receive_function_good.
+Print Assumptions call_receive_refuted.
+Print Assumptions handle_select_good.
